@@ -126,7 +126,7 @@ def run(prop, tier, seed, replay=None, rep=None, finish=True):
                     seen.add(k)
                     structs.append(c)
             # concrete trees
-            kinds = [kind('w', sfx=True), kind('a&b'), kind(u'Üb', sfx=True), LENKINDS[0], LENKINDS[4]] + \
+            kinds = [kind('w', sfx=True), kind('a&b'), kind(u'Üb', sfx=True), kind('#5000'), kind(u'1\u00a00'), LENKINDS[0], LENKINDS[4]] + \
                 ([kind('x' * 8)] + LENKINDS[1:4] if tier != 'quick' else [])
             m = dict(N=3, MaxCons=2, MaxChain=1) if tier == 'quick' else dict(N=3, MaxCons=3, MaxChain=2)
             core.gen_module(w, 'MCR', ['MC_Readers'], {
